@@ -1,5 +1,5 @@
 """C35 -- Reloading a program is idempotent."""
-import json, os, re, struct
+import json, os, re, struct, time
 from vlib import core, terms
 
 META = {
@@ -389,15 +389,16 @@ def parse_obs(sc, res):
     return "([%s], [%s])" % ("; ".join(qs), "; ".join(os_))
 
 
-def coq_case(sc, naming, observed):
+def coq_case(sc, naming, observed, fn="check_trace"):
     tids = {"S": 1, "O": 2} if naming == "path" else {"S": 0, "O": 0}
     steps = []
     for st in sc["steps"]:
         if st[0] == "load": steps.append("SLoad %d t%s" % (tids[st[1]], st[1]))
         else: steps.append("SAssert (%s, Atom n_true)" % cterm(st[1]))
-    return ("let tS : text := %s in let tO : text := %s in check_trace %d [%s] [%s] [%s] [%s]" % (
-        coq_items(sc["S"]), coq_items(sc["O"]), FUEL, "; ".join(steps), "; ".join(ckey(k) for k in sc["keys"]),
-        "; ".join(cname(o) for o in sc["opnames"]), "; ".join(observed)))
+    head = "let tS : text := %s in let tO : text := %s in " % (coq_items(sc["S"]), coq_items(sc["O"]))
+    args = "[%s] [%s] [%s]" % ("; ".join(steps), "; ".join(ckey(k) for k in sc["keys"]), "; ".join(cname(o) for o in sc["opnames"]))
+    if fn == "trace": return head + "trace %d machine0 %s" % (FUEL, args)
+    return head + "%s %d %s [%s]" % (fn, FUEL, args, "; ".join(observed))
 
 
 def epochs(marks):
@@ -483,7 +484,7 @@ def minimise_panic(prop, sc, api, naming):
         else:
             out = core.vrun_query(prop, jobs, tag="minp")
         return {cid: ("crash" in out.get(cid, {"crash": 1}) or "panic" in json.dumps(out[cid].get("results"))) for cid, _ in cands}
-    for rnd in range(60):
+    for rnd in range(30):
         cands = []
         for w in ("S", "O"):
             for i in range(len(cur[w])):
@@ -532,7 +533,10 @@ def run(ctx):
         for api, naming in variants:
             j, marks = make_job(sc, api, naming)
             jobs.append(j); jmarks[j["id"]] = marks
+    timing = {}
+    t0 = time.time()
     res = core.vrun_query(ctx.prop, jobs, tag="q")
+    timing["vrun_s"] = round(time.time() - t0, 1)
 
     failures, tie_breaks = [], []
     bools, binfo = [], []
@@ -608,14 +612,17 @@ def run(ctx):
                     tie_breaks.append({"kind": "harness", "what": "an observation query changed the footprint", "detail": {"input": inp, "before": fps[i - 1], "after": fps[i]}})
                     break
 
+    t0 = time.time()
     bad, errs = core.coq_eval_bools(ctx.prop, IMPORTS, bools, chunk=40, timeout=900)
+    timing["coq_s"] = round(time.time() - t0, 1)
     for _, t in errs:
         tie_breaks.append({"kind": "coq-eval", "what": "model evaluation shard failed", "detail": t})
     # where does each disagreeing trace first differ from the model?  (one coqc run for all of them)
-    bad = sorted(bad, key=lambda j: (len(binfo[j][0]["S"]) + len(binfo[j][0]["O"]), len(binfo[j][0]["steps"])))[:40]
+    bad = sorted(bad, key=lambda j: (len(binfo[j][0]["S"]) + len(binfo[j][0]["O"]), len(binfo[j][0]["steps"])))[:30]
     dist["traces_differing_from_model"] = len(bad)
+    t_cls = time.time()
     if bad:
-        shown = core.coq_eval_show(ctx.prop, IMPORTS, "[%s]" % "; ".join(bools[j].replace("check_trace", "first_mismatch", 1) for j in bad), timeout=900)
+        shown = core.coq_eval_show(ctx.prop, IMPORTS, "[%s]" % "; ".join(coq_case(binfo[j][0], binfo[j][2], binfo[j][4], "first_mismatch") for j in bad), timeout=900)
         locs = re.findall(r"(None|Some \((\d+)(?:%nat)?, (?:Some (\d+)(?:%nat)?|None)\))", shown)
         if len(locs) != len(bad):
             tie_breaks.append({"kind": "coq-eval", "what": "could not locate the model/implementation differences", "detail": shown[-2000:]})
@@ -633,32 +640,36 @@ def run(ctx):
                 feat, where = "operators", "operator entries"
             upto = sc["steps"][:int(st) + 1] if st != "" else sc["steps"]
             texts = sorted({s[1] for s in upto if s[0] == "load"})
-            feat += (":two-texts" if len(texts) == 2 else ":one-text") + (":asserts" if any(s[0] == "assert" for s in upto) else "") + \
-                    (":file-identity" if naming == "path" else ":anonymous-identity")
+            feat += (":two-texts" if len(texts) == 2 else ":one-text") + (":file-identity" if naming == "path" else ":anonymous-identity")
             by_key.setdefault(feat, []).append((j, st, where))
-        for feat, lst in sorted(by_key.items()):
+        for n_shown, (feat, lst) in enumerate(sorted(by_key.items())):
             j, st, where = lst[0]
             sc, api, naming, inp, obs = binfo[j]
-            spec = core.coq_eval_show(ctx.prop, IMPORTS, bools[j].replace("check_trace", "trace", 1).rsplit(" [", 1)[0].replace("trace %d " % FUEL, "trace %d machine0 " % FUEL, 1))
+            spec = core.coq_eval_show(ctx.prop, IMPORTS, coq_case(sc, naming, obs, "trace")) if n_shown < 3 else "(model trace not printed)"
             failures.append({"key": "reload:answers-differ-from-model:" + feat,
-                             "what": "after step %s of the history the answers of %s differ from the loader model's (%d such traces in this run)" % (st, where, len(lst)),
+                             "what": "after step %s of the history (counting from 0) the answers of %s differ from the loader model's (%d such traces in this run)" % (st, where, len(lst)),
                              "input": inp + "; queries=" + obs_query(sc), "impl": " | ".join(obs)[:1500], "spec": spec[:1500], "property_fails": True})
+    timing["classify_s"] = round(time.time() - t_cls, 1)
 
     # panics: drop items (keeping every text well formed) while the history still panics, name what is left
+    t_p = time.time()
     panics.sort(key=lambda p: (len(p[0]["S"]) + len(p[0]["O"]), p[0]["idx"]))
     pseen = set()
-    for sc, api, naming, inp, msgs in panics[:3]:
+    for sc, api, naming, inp, msgs in panics[:2]:
         small = minimise_panic(ctx.prop, sc, api, naming)
-        feat = "+".join(sorted((kinds_of(small["S"]) | kinds_of(small["O"])) - {"fact"})) or "fact"
-        key = "reload:panic:%s" % feat
+        decls = sorted((kinds_of(small["S"]) | kinds_of(small["O"])) & {"dynamic", "discontiguous", "multifile", "op", "initialization"})
+        two = len({s[1] for s in small["steps"] if s[0] == "load"}) == 2
+        key = "reload:panic:%s:%s" % ("+".join(decls) or "static", "two-texts" if two else "one-text")
         if key in pseen: continue
         pseen.add(key)
         failures.append({"key": key, "what": "a (re)load panics (%d histories in this run); smallest history found by dropping items" % len(panics),
                          "input": "%s; %s; steps=%s; S=%r; O=%r; found from: %s" % (APIS[api], "file-path identity" if naming == "path" else "anonymous identity",
                                   " ".join(s[0] + (s[1] if s[0] == "load" else "") for s in small["steps"]), text_of(small["S"]), text_of(small["O"]), inp[:600]),
                          "impl": "; ".join(msgs)[:400], "spec": "the load succeeds and the answers are the model's", "property_fails": True})
+    timing["panic_minimise_s"] = round(time.time() - t_p, 1)
 
     # footprint growth: confirm with loads only, minimise by dropping items, name the program feature
+    t_g = time.time()
     explained = []   # (counter, feature kinds, apis)
     grow_cases.sort(key=lambda g: (g[3], len(g[0]["S"]), g[0]["idx"], g[1]))
     todo = list(grow_cases)
@@ -687,6 +698,8 @@ def run(ctx):
         explained.append((c, kinds_of(small), set(apis)))
         todo = [g for g in todo if not any(g[3] == ec and g[1] in ea and kinds_of(g[0]["S"]) >= ek for ec, ek, ea in explained)]
 
+    timing["growth_minimise_s"] = round(time.time() - t_g, 1)
+    dist["timing"] = timing
     samples = []
     for sc in scs[:2] + scs[-2:]:
         samples.append({"S": text_of(sc["S"])[:300], "O": text_of(sc["O"])[:200], "steps": [s[0] + (s[1] if s[0] == "load" else "") for s in sc["steps"]]})
